@@ -348,7 +348,7 @@ func (s *setImpl) Exec(line string) string {
 }
 
 func runC07(f *hx.Flags) {
-	r := hx.NewRunner(f, "h-set", newSetImpl(), "random operation sequences (<=40 ops) over universes of 4-6 int/string/struct elements from nil, empty and pre-filled sets, argument lists of 0-6 items with repeats; after every mutating op a full membership probe and Slice(); Has/HasAny with >=1 argument are in-domain, zero-argument calls go to the out-of-domain stream. non-trivial: at least one op changed the set and one Has/HasAny was asked; distinct by request lines")
+	r := hx.NewRunner(f, "h-set", newSetImpl(), "random operation sequences (<=40 ops) over universes of 4-6 int/string/struct elements (incl. a two-string struct whose distinct members share one printed form) from nil, empty and pre-filled sets, argument lists of 0-6 items with repeats; after every mutating op a full membership probe and Slice(); Has/HasAny with >=1 argument are in-domain, zero-argument calls go to the out-of-domain stream. non-trivial: at least one op changed the set and one Has/HasAny was asked; distinct by request lines")
 	r.KeyOf = func(d *hx.Disagreement) string {
 		ws := strings.Fields(d.Request)
 		if len(ws) >= 2 {
@@ -364,11 +364,13 @@ func runC07(f *hx.Flags) {
 	if f.Tier == "thorough" {
 		n = r.N(600000)
 	}
-	kinds := []string{"int", "string", "struct"}
+	// "pair": a struct of two strings whose first four universe members all print as `{Mary Ann Lee}`
+	// (distinct members with one printed form: anything keyed by fmt.Sprint of a member conflates them)
+	kinds := []string{"int", "string", "struct", "pair"}
 	for i := 0; i < n; i++ {
 		domain := r.Rng.Intn(20) != 0
 		usz := 4 + r.Rng.Intn(3)
-		lines := []string{"case set " + kinds[r.Rng.Intn(3)]}
+		lines := []string{"case set " + kinds[r.Rng.Intn(len(kinds))]}
 		args := func(min int) string {
 			k := min + r.Rng.Intn(7-min)
 			p := make([]string, k)
